@@ -24,6 +24,10 @@ func stdlibEffects(fn *ssa.Function) ([]string, bool) {
 		return []string{"Avail", bvSort(8)}, true
 	case strings.HasPrefix(name, "(*sync.Mutex)."), strings.HasPrefix(name, "(*sync.RWMutex)."):
 		return []string{"Held"}, true
+	case strings.HasPrefix(name, "(*sync.WaitGroup)."), name == "context.Background", name == "context.TODO", strings.HasPrefix(name, "context.With"), name == "time.Now":
+		return nil, true
+	case strings.HasPrefix(name, "sync/atomic.Load"):
+		return nil, true
 	case strings.HasPrefix(name, "(*sync/atomic."):
 		if strings.HasSuffix(name, ".Load") {
 			return nil, true
@@ -248,6 +252,11 @@ func (a *Activation) stdlibCall(st *State, callee *ssa.Function, cc *ssa.CallCom
 	case "time.Now":
 		mark()
 		return a.havocValue(st, resT, "now"), true
+	case "(*sync.WaitGroup).Add", "(*sync.WaitGroup).Done", "(*sync.WaitGroup).Wait", "(*sync.WaitGroup).Go":
+		// a wait group carries no state the verified (sequential) code reads
+		mark()
+		g.trusted["sync.WaitGroup operations have no effect visible to the sequential code under verification"] = true
+		return Val{}, true
 	case "bufio.NewReader", "bufio.NewReaderSize":
 		// a fresh buffered reader; what can be read through it is what was left on the
 		// underlying reader when it was created
